@@ -190,6 +190,23 @@ def case(r):
 
 
 # ---------------------------------------------------------------------------------------------- other source kinds
+USER_PRELUDE = (
+    "use konst::iter::{ConstIntoIter, IsIntoIterKind, IsIteratorKind}; "
+    "pub struct UserInto(pub &'static [u64]); "
+    "impl ConstIntoIter for UserInto { type Kind = IsIntoIterKind; type IntoIter = konst::slice::IterCopied<'static, u64>; type Item = u64; } "
+    "impl UserInto { pub const fn const_into_iter(self) -> konst::slice::IterCopied<'static, u64> { konst::slice::iter_copied(self.0) } } "
+    "pub struct UserIter { pub s: &'static [u64] } pub struct UserIterRev { pub s: &'static [u64] } "
+    "impl ConstIntoIter for UserIter { type Kind = IsIteratorKind; type IntoIter = Self; type Item = u64; } "
+    "impl ConstIntoIter for UserIterRev { type Kind = IsIteratorKind; type IntoIter = Self; type Item = u64; } "
+    "impl UserIter { "
+    "pub const fn next(self) -> Option<(u64, Self)> { match self.s { [x, rem @ ..] => Some((*x, Self { s: rem })), [] => None } } "
+    "pub const fn next_back(self) -> Option<(u64, Self)> { match self.s { [rem @ .., x] => Some((*x, Self { s: rem })), [] => None } } "
+    "pub const fn rev(self) -> UserIterRev { UserIterRev { s: self.s } } pub const fn copy(&self) -> Self { Self { s: self.s } } } "
+    "impl UserIterRev { "
+    "pub const fn next(self) -> Option<(u64, Self)> { match self.s { [rem @ .., x] => Some((*x, Self { s: rem })), [] => None } } "
+    "pub const fn next_back(self) -> Option<(u64, Self)> { match self.s { [x, rem @ ..] => Some((*x, Self { s: rem })), [] => None } } "
+    "pub const fn rev(self) -> UserIter { UserIter { s: self.s } } pub const fn copy(&self) -> Self { Self { s: self.s } } } "
+)
 def source_expr(kind, inp, idx):
     """-> (const items, source tokens incl. leading adapters) for input `inp`, or None when the kind cannot denote it"""
     lit = ", ".join("%du64" % x for x in inp)
@@ -208,6 +225,10 @@ def source_expr(kind, inp, idx):
         return "const S%d: &str = \"%s\";" % (idx, s), "konst::string::chars(S%d), map(|c| c as u64)" % idx
     if kind == "repeat_take":
         return "", "konst::iter::repeat(%du64), take(%d)" % (inp[0], len(inp))
+    if kind == "user_into":
+        return "const U%d: &[u64] = &[%s];" % (idx, lit), "UserInto(U%d)" % idx
+    if kind == "user_iter":
+        return "const W%d: &[u64] = &[%s];" % (idx, lit), "UserIter { s: W%d }" % idx
     return None
 
 
